@@ -228,6 +228,18 @@ def sparse_uint8_collapse_sum_above_255(case):
     return float(np.max(A.sum(axis=tuple(sorted(case["dims"]))))) > 255
 
 
+# -- sptensor.ttv: the number of cells of a >= 2-way result computed in int64 --------------------------------------------
+def sparse_ttv_result_cells_overflow_int64(case):
+    """C02/hugemodes: ttv leaving two or more modes whose lengths multiply to 2**63 or more"""
+    if case.get("op") != "ttv":
+        return False
+    rem = [int(n) for m, n in enumerate(case["shape"]) if m not in case["sel"]]
+    cells = 1
+    for n in rem:
+        cells *= n
+    return len(rem) >= 2 and cells >= 2**63
+
+
 PREDICATES = {f.__name__: f for f in (
     kruskal_ttv_selected_singleton, oneway_sparse_operand, sparse_operand_with_one_nonzero,
     receiver_sparse_one_nonzero_dense_factor, receiver_sparse_empty, receiver_sparse_empty_all_modes_collapsed,
@@ -235,5 +247,5 @@ PREDICATES = {f.__name__: f for f in (
     sparse_mask_misplaces, sparse_mask_receiver_empty, sparse_mask_W_empty, bare_vector_narrow_dtype,
     sum_full_contraction_with_integer_part, sum_mttkrp_integer_first_part_then_float,
     unsigned_one_entry_receiver_negative_sparse_factor, both_operands_boolean, dense_boolean_through_tenmat,
-    sparse_boolean_collapse_into_one_cell, sparse_uint8_collapse_sum_above_255,
+    sparse_boolean_collapse_into_one_cell, sparse_uint8_collapse_sum_above_255, sparse_ttv_result_cells_overflow_int64,
 )}
